@@ -13,7 +13,7 @@ use crate::ev;
 use crate::rsim::{hello_msg, reply_msg, run_scenario, CloseKind, Kind, Scenario, Step, PKI};
 use crate::ssim::{CAP_BASE10, CAP_JUNOS};
 
-const PASSWORDS: [&str; 8] = ["s3cr3t pass'\"", "hunter2hunter2", "pässwörd-ünïcode", "with space and \"quotes\"", "tab\tand\\backslash", "Tr0ub4dor&3<xml>", "correct horse battery staple", "0123456789abcdef0123456789abcdef"];
+const PASSWORDS: [&str; 11] = ["пароль-секрет", "我的密码短语", "ñandú–çedilla–ßtraße", "s3cr3t pass'\"", "hunter2hunter2", "pässwörd-ünïcode", "with space and \"quotes\"", "tab\tand\\backslash", "Tr0ub4dor&3<xml>", "correct horse battery staple", "0123456789abcdef0123456789abcdef"];
 const FILTERS: [&str; 8] = ["trace", "debug", "info", "netconf=trace", "trace,russh=off,rustls=off", "netconf::transport=trace,netconf::session=debug", "warn,netconf::transport::ssh=trace", "error"];
 
 #[derive(Clone)]
@@ -163,7 +163,7 @@ pub static C20: PropSpec = PropSpec {
     runs: |t| if t == Tier::Thorough { 100_000 } else { 1_500 },
     enumerated: |_| 0,
     run,
-    rule: "real SSH (password) and TLS (client key) session establishment against the scripted peers with a capturing tracing subscriber (span creation and close events included, so that every #[instrument]ed argument is rendered); 8 filter directives from 'error' to 'trace' incl. per-target ones; 8 passwords (quotes, whitespace, backslash, non-ASCII, XML metacharacters); outcomes: success + one rpc, rejected credentials, peer closes inside the hello. Oracle: no line whose target is one of the repository's crates contains the secret in clear, Debug-escaped, hex (4 spellings), base64 (2) or byte-list (2) form; for the key: the DER, two 16-byte windows of it, and each PEM body line. Agent part (3 runs in 7): the agent executable (the repository's own bin source, argument parsing, global subscriber, PEM readers) is started as a child process with -qq..-vvv, RUST_LOG unset / trace / per-target, RUST_BACKTRACE 0/1, one-shot or daemon mode, logging to stderr or to a log file, against a `remote` target on a closed loopback port; the client key file (PKCS#8 EC, SEC1 EC, PKCS#1 RSA) has met one of 19 storage faults: intact, truncated at any offset, line ends lost (joined by blanks / by nothing, with or without a final LF), CR-only, CRLF, one flipped bit, leading garbage / BOM / bag attributes, torn BEGIN line, missing or torn END line, unknown label, empty, missing, a directory, swapped with the certificate, key+certificate in one file (both orders), re-wrapped to other line widths. Oracle: nothing the process writes (stderr, stdout, log files; ANSI sequences removed) contains the DER, its private part or any 16-byte window of it in the ten encodings, or any 20-character window of the private part of the PEM text, except in a log line whose target is a dependency. Non-trivial = more than 200 bytes of log text captured (agent part: any output, or quiet mode); distinct = distinct event-log hash",
+    rule: "real SSH (password) and TLS (client key) session establishment against the scripted peers with a capturing tracing subscriber (span creation and close events included, so that every #[instrument]ed argument is rendered); 8 filter directives from 'error' to 'trace' incl. per-target ones; 11 passwords (quotes, whitespace, backslash, XML metacharacters, mixed and entirely non-ASCII ones); outcomes: success + one rpc, rejected credentials, peer closes inside the hello. Oracle: no line whose target is one of the repository's crates contains the secret in clear, Debug-escaped, hex (4 spellings), base64 (2) or byte-list (2) form; for the key: the DER, two 16-byte windows of it, and each PEM body line. Agent part (3 runs in 7): the agent executable (the repository's own bin source, argument parsing, global subscriber, PEM readers) is started as a child process with -qq..-vvv, RUST_LOG unset / trace / per-target, RUST_BACKTRACE 0/1, one-shot or daemon mode, logging to stderr or to a log file, against a `remote` target on a closed loopback port; the client key file (PKCS#8 EC, SEC1 EC, PKCS#1 RSA) has met one of 19 storage faults: intact, truncated at any offset, line ends lost (joined by blanks / by nothing, with or without a final LF), CR-only, CRLF, one flipped bit, leading garbage / BOM / bag attributes, torn BEGIN line, missing or torn END line, unknown label, empty, missing, a directory, swapped with the certificate, key+certificate in one file (both orders), re-wrapped to other line widths. Oracle: nothing the process writes (stderr, stdout, log files; ANSI sequences removed) contains the DER, its private part or any 16-byte window of it in the ten encodings, or any 20-character window of the private part of the PEM text, except in a log line whose target is a dependency. Non-trivial = more than 200 bytes of log text captured (agent part: any output, or quiet mode); distinct = distinct event-log hash",
     components: &[
         ("netconf session.rs / transport/ssh.rs / transport/tls.rs with their tracing instrumentation", "real"),
         ("tracing, tracing-subscriber (fmt layer, EnvFilter)", "real; installed per run with a thread-local default dispatcher"),
